@@ -1427,8 +1427,14 @@ def soap_helper_paths(ctx, wrapper=False):
             if c.startswith('reqwest::RequestBuilder::basic_auth'):
                 mm.events.append(('basic_auth', as_str(args[1]), as_str(deref(args[2]).fields[0]) if deref(args[2]).variant == 1 else None))
                 return args[0]
+            if c.startswith('reqwest::RequestBuilder::try_clone'):
+                return SOME(Opaque('RequestBuilder', 'clone'))     # a request with a String body can be cloned
+            m_is = re.match(r'reqwest::Error::(is_\w+)$', c)
+            if m_is:
+                return mm.branch(B('error_%s' % m_is.group(1)))   # which kind of transport error it was is up to the environment
             if c.startswith('reqwest::RequestBuilder::send'):
                 mm.events.append(('send',))
+                polls['sends'] = polls.get('sends', 0) + 1
                 return Opaque('Pending')
             if c.endswith('as Future>::poll') and ('Pending as Future' in c or 'Response::text' in c):
                 which = 'send' if 'Pending as Future' in c else 'text'
@@ -1436,7 +1442,9 @@ def soap_helper_paths(ctx, wrapper=False):
                     polls[which] += 1
                     return Adt('Poll', 1, [])
                 if which == 'send':
-                    return Adt('Poll', 0, [OK(Opaque('Response')) if mm.branch(B('send_ok')) else ERR(Opaque('reqwest::Error', 'transport'))])
+                    nth = polls.get('sends', 1)
+                    polls['send'] = 0         # a further send may be pending once, too
+                    return Adt('Poll', 0, [OK(Opaque('Response')) if mm.branch(B('send_ok' if nth <= 1 else 'send_ok_%d' % nth)) else ERR(Opaque('reqwest::Error', 'transport'))])
                 return Adt('Poll', 0, [OK(RString('<response-body/>')) if mm.branch(B('text_ok')) else ERR(Opaque('reqwest::Error', 'body'))])
             if c.startswith('reqwest::Response::error_for_status_ref'):
                 mm.events.append(('status_check',))
